@@ -106,13 +106,33 @@ def run_sim_impl(t):
         tr, _ = train_test_split(list(range(n)), test_size=t["test_size"], random_state=t["seed"])
         tr = [int(i) for i in tr]
     out = []
+    def canon_stats(d):
+        """{arm: {'count',...}} -> [(arm, None | (count, sum, min, max, mean, std) as bits)]; an all-NaN record is None"""
+        res = []
+        for a in t["arms"]:
+            st = d[a]
+            if st["count"] == 0 and st["sum"] != st["sum"]:
+                res.append((int(a), None))
+            else:
+                res.append((int(a), (int(st["count"]),) + tuple(mwh.canon_val(st[k]) for k in ("sum", "min", "max", "mean", "std"))))
+        return res
     for b in t["bandits"]:
         name = b["name"]
         preds = [int(p) for p in sim.bandit_to_predictions[name]]
         e = sim.bandit_to_expectations[name]
         if isinstance(e, dict):
             e = [e]
-        out.append((preds, [canon_exp(d) for d in e]))
+        ev = {}
+        for sname, table in (("min", sim.bandit_to_arm_to_stats_min), ("mean", sim.bandit_to_arm_to_stats_avg), ("max", sim.bandit_to_arm_to_stats_max)):
+            tb = table[name]
+            if t["batch_size"] == 0:
+                ev["total_" + sname] = canon_stats(tb)
+            else:
+                for key, val in tb.items():
+                    ev["%s_%s" % (key, sname)] = canon_stats(val)
+        out.append((preds, [canon_exp(d) for d in e], ev))
+    armstats = {"total": canon_stats(sim.arm_to_stats_total), "train": canon_stats(sim.arm_to_stats_train), "test": canon_stats(sim.arm_to_stats_test)}
+    t["_armstats"] = armstats
     return out, (tr, ti), tape, None
 
 def knn_oracle(hist_cx, rows, k, metric):
@@ -141,6 +161,8 @@ def simcase_text(cid, t, split, tape):
     any_ctx = any(not REL.is_context_free(b) for b in t["bandits"])
     def rows(idx):
         return [ds[i] for i in idx], [rs[i] for i in idx], ([cx[i] for i in idx] if any_ctx else None)
+    lines.append("QUICK %d" % (1 if t["is_quick"] else 0))
+    lines.append("TOTAL " + " ".join(batch_tokens(ds, rs, cx if any_ctx else None)))
     lines.append("TRAIN " + " ".join(batch_tokens(*rows(tr))))
     for b in t["bandits"]:
         lines.append(" ".join(mwh.orc_tokens(None)))
@@ -175,7 +197,29 @@ def compare_sim(t, impl, mres):
         return ["model produced no output for the simulation"]
     if mres["E"]:
         return ["model error: " + mres["E"]]
-    for i, (b, (preds, exps)) in enumerate(zip(t["bandits"], impl)):
+    def cmp_stats(implst, tokens):
+        if len(tokens) != len(implst):
+            return False
+        for (a, st), tok in zip(implst, tokens):
+            p = tok.split(":")
+            if int(p[0]) != a:
+                return False
+            if st is None:
+                if p[1:] != ["nan"]:
+                    return False
+                continue
+            if p[1:] == ["nan"] or int(p[1]) != st[0]:
+                return False
+            # sums / minima / maxima / means bit-exact; the standard deviation up to 4 ulp-ish (sqrt of a mean of squares)
+            for j, (x, y) in enumerate(zip(st[1:], p[2:])):
+                if not mwh.close_bits(x, y, "exact" if j < 4 else "tol", rtol=1e-12, atol=1e-300):
+                    return False
+        return True
+    for scope, implst in (t.get("_armstats") or {}).items():
+        tok = mres["S"].get(1000, {}).get("armstats_" + scope)
+        if tok is None or not cmp_stats(implst, tok):
+            dis.append("arm_to_stats_%s differs: simulator=%s model=%s" % (scope, implst, tok))
+    for i, (b, (preds, exps, ev)) in enumerate(zip(t["bandits"], impl)):
         r = mres["R"].get(i)
         if r is None or r[0] != "preds":
             dis.append("bandit %s: model reports %s, the Simulator completed" % (b["name"], r))
@@ -198,6 +242,13 @@ def compare_sim(t, impl, mres):
             if not mwh.cmp_exp(d, row, mode):
                 dis.append("bandit %s: reported expectations differ at record %d: simulator=%s model=%s" % (b["name"], j, d, row))
                 break
+        # the evaluation (default_evaluator): min / mean / max analyses, per batch and in total
+        if mp == [str(p) for p in preds]:
+            for key, implst in ev.items():
+                tok = mres["S"].get(i, {}).get("ev_" + key)
+                if tok is None or not cmp_stats(implst, tok):
+                    dis.append("bandit %s: evaluation %s differs: simulator=%s model=%s" % (b["name"], key, implst, tok))
+                    break
     return dis
 
 def run_simcorr(n, seed, tier, stats, dist, distinct, samples, prop="C15"):
@@ -227,10 +278,10 @@ def run_simcorr(n, seed, tier, stats, dist, distinct, samples, prop="C15"):
         d = compare_sim(t, impl, res.get("s%d" % i))
         if d:
             stats["corr_disagree"] += 1
-            bad.append({"why": d[:4], "simulation": t, "theorem_pinning_the_model_value": "coq/props/%s.v" % prop})
+            bad.append({"why": d[:4], "simulation": {k: v for k, v in t.items() if not k.startswith("_")}, "theorem_pinning_the_model_value": "coq/props/%s.v" % prop})
         if len(samples) < 3 and i == 0:
             samples.append({"simulator_correspondence": {"bandits": t["bandits"], "rows": len(t["ds"]), "batch_size": t["batch_size"], "is_ordered": t["is_ordered"]},
-                            "predictions_head": [p[:8] for p, _ in impl]})
+                            "predictions_head": [x[0][:8] for x in impl]})
     return bad
 
 def REL_hash(t):
